@@ -94,6 +94,10 @@ func runC13(l *core.Ledger) {
 					l.OK("C13-D1", mk("type-assert"), x.Pos(), "comma-ok form")
 					return
 				}
+				if why, ok := c13HomogeneousMemo(l, r, x); ok {
+					l.OK("C13-D1", mk("type-assert"), x.Pos(), why)
+					return
+				}
 				l.Bad("C13-D1", mk("type-assert"), x.Pos(), "single-result type assertion "+types.TypeString(x.AssertedType, shortQual)+" on a value chosen by wire data ("+sx.OriginsString(sx.Origins(x.X))+"): a name that resolves to another kind of entity (e.g. a message name in the method field) panics the receiving process")
 			case *ssa.Panic:
 				if c, ok := x.X.(*ssa.MakeInterface); ok {
@@ -968,6 +972,14 @@ func c13D10(l *core.Ledger, r *rt, gum *ssa.Function) {
 					if st, ok := ref.(*ssa.Store); ok && st.Addr == ssa.Value(x) {
 						walk(st.Val, d+1)
 					}
+					// a struct literal: what is stored into its fields
+					if fa, ok := ref.(*ssa.FieldAddr); ok {
+						for _, r2 := range *fa.Referrers() {
+							if st, ok := r2.(*ssa.Store); ok && st.Addr == ssa.Value(fa) {
+								walk(st.Val, d+1)
+							}
+						}
+					}
 				}
 				return
 			}
@@ -1175,4 +1187,72 @@ func calledOnlyBy(l *core.Ledger, r *rt, f *ssa.Function, caller string) bool {
 		})
 	}
 	return ok && n > 0
+}
+
+// c13HomogeneousMemo: a single-result assertion v.(T) on what a package-level sync.Map hands out
+// cannot fail when every value the package ever puts into that map has the static type T (or one
+// that implements it): the peer chooses the key, not the value.
+func c13HomogeneousMemo(l *core.Ledger, r *rt, ta *ssa.TypeAssert) (string, bool) {
+	var g *ssa.Global
+	for _, o := range sx.Origins(ta.X) {
+		c, ok := o.V.(*ssa.Call)
+		if !ok || o.Kind != sx.KExtract || o.Index != 0 {
+			return "", false
+		}
+		name := sx.StaticCalleeName(&c.Call)
+		if !strings.HasSuffix(name, "sync.Map.Load") || len(c.Call.Args) < 1 {
+			return "", false
+		}
+		gg, ok := c.Call.Args[0].(*ssa.Global)
+		if !ok || (g != nil && g != gg) {
+			return "", false
+		}
+		g = gg
+	}
+	if g == nil {
+		return "", false
+	}
+	nstores := 0
+	okAll := true
+	for _, f := range allFuncs(l.Prog, r.pkg) {
+		sx.AllInstrs(f, func(_ sx.Node, in ssa.Instruction) {
+			c, ok := in.(*ssa.Call)
+			if !ok || len(c.Call.Args) < 1 || c.Call.Args[0] != ssa.Value(g) {
+				if ok {
+					// the map handed to anything else: not decided here
+					for _, a := range c.Call.Args[min(1, len(c.Call.Args)):] {
+						if a == ssa.Value(g) {
+							okAll = false
+						}
+					}
+				}
+				return
+			}
+			name := sx.StaticCalleeName(&c.Call)
+			var val ssa.Value
+			switch {
+			case strings.HasSuffix(name, "sync.Map.Store"), strings.HasSuffix(name, "sync.Map.LoadOrStore"), strings.HasSuffix(name, "sync.Map.Swap"):
+				val = c.Call.Args[2]
+			case strings.HasSuffix(name, "sync.Map.CompareAndSwap"):
+				val = c.Call.Args[3]
+			default:
+				return
+			}
+			nstores++
+			var inner types.Type
+			switch v := val.(type) {
+			case *ssa.MakeInterface:
+				inner = v.X.Type()
+			case *ssa.ChangeInterface:
+				inner = v.X.Type()
+			}
+			if inner == nil || !types.AssignableTo(inner, ta.AssertedType) {
+				okAll = false
+			}
+		})
+	}
+	if okAll && nstores > 0 {
+		return fmt.Sprintf("the value comes from the package-level memo %s, and all %d stores into it put a %s", g.Name(), nstores, types.TypeString(ta.AssertedType, shortQual)), true
+	}
+	return "", false
 }
